@@ -163,6 +163,13 @@ class _Tunnel(Interface):
         finally:
             self._connecting = False
 
+        if self._disconnect_requested:
+            # disconnect() was called while the ConnectResponse was on its way. It
+            # found no tunnel to close and stopped the transport - the tunnel must not
+            # come to life behind it.
+            self.communication_channel = None
+            raise CommunicationError("Tunnel was disconnected while connecting")
+
         self._tunnel_established()
         self.xknx.connection_manager.connection_state_changed(
             XknxConnectionState.CONNECTED, self.connection_type
